@@ -11,6 +11,12 @@
     C03_reject_*          one theorem per constraint the code enforces
   Closed examples (token lists of the real tokenizer, replayed on the implementation by the
   `build` suite) accompany them.
+
+  On STRINGS, through the reference tokenizer (Model/Lex*.lean: xmlparser 0.13.6 as written; tied to
+  the crate by the `lex` suite):
+    C03_lex_shape, C03_lex_no_stray_close   the token-shape contract is a theorem of its output
+    C03_string_nopanic / _sound / _sound_document / _reject_lexerr   `parse(_fragment)` on any string
+    C03_lex_reject_*      lexical rejections after the canonical spelling of any `LexOK` token list
 -/
 import XotModel.Lemmas.ParseSound
 import XotModel.Lemmas.ParseNoPanic
